@@ -108,7 +108,10 @@ def rne_rational(ctx: Ctx, guard: Any, A: Any, B: Fr, lo: Fr, hi: Fr) -> list[FC
         g = z3.And(guard, X >= dd * 2 ** (p - 1), X < dd * 2 ** p, rhe(m, X, dd),
                    m >= 2 ** (p - 1), m <= 2 ** p)
         ctx.roundings.append((m, X, dd, q))
-        out.append(FCase(g, m, q, max(lo, Fr(2) ** e), min(hi, Fr(2) ** (e + 1))))
+        # interval of the ROUNDED value m*2**q: the unrounded value lies in [lo, hi] within this binade and rounding moves
+        # it by at most half an ulp (2**(q-1)); a full ulp of slack keeps later binade enumerations complete at boundaries
+        ulp = Fr(2) ** q
+        out.append(FCase(g, m, q, max(Fr(0), max(lo, Fr(2) ** e) - ulp), min(hi, Fr(2) ** (e + 1)) + ulp))
     return out
 
 
